@@ -11,6 +11,32 @@ C11_UN = {'hash', 'to_bytes', 'to_bytes_le', 'ark.into_bigint', 'ark.into_bigint
 def operand(rng, m, boundary):
     return rng.choice(boundary) if rng.below(3) == 0 else gen.rand_field(rng, m)
 
+def structured_pairs(rng, f, n):
+    """operand pairs for the binary predicates (eq, ct_eq, cmp): equal operands, and distinct operands whose LIMBS — in the
+    canonical and in the Montgomery representation, 64- and 32-bit — differ by patterns that cancel under xor / addition,
+    or only in one limb / one bit.  (Random operands differ in every limb, so a limb-combining comparison is never exercised.)"""
+    m = fc.MOD[f]; nb = 8 * fc.N8[f]; Rinv = pow(1 << nb, -1, m); out = []
+    def limbs_ok(v): return 0 <= v < m
+    for k in range(n):
+        L = gen.rand_field(rng, m) >> rng.below(3)
+        w = rng.choice([64, 32]); nl = nb // w
+        i, j = rng.below(nl - 1), 0
+        j = i + 1 + rng.below(nl - 1 - i) if i < nl - 1 else i
+        d = rng.choice([1, 1 << (w - 1), (1 << w) - 1, rng.bits(w) | 1])
+        kind = k % 6
+        if kind == 0: L2 = L
+        elif kind == 1: L2 = L ^ (d << (w * i)) ^ (d << (w * j))
+        elif kind == 2: L2 = L + (d << (w * i)) - (d << (w * j))
+        elif kind == 3: L2 = L ^ (1 << rng.below(m.bit_length() - 1))
+        elif kind == 4: L2 = L ^ (d << (w * i))
+        else:
+            sh = w * i; lo = (L >> sh) & ((1 << w) - 1); hi = (L >> (w * j)) & ((1 << w) - 1)     # swap two limbs
+            L2 = L & ~(((1 << w) - 1) << sh) & ~(((1 << w) - 1) << (w * j)) | (hi << sh) | (lo << (w * j))
+        if not limbs_ok(L2): L2 = L
+        out.append((L, L2))                                   # pattern in the canonical representation
+        out.append((L * Rinv % m, L2 * Rinv % m))             # the same pattern in the Montgomery representation
+    return out
+
 def gen_lines(rng, build, reps, which='C10'):
     ops = harness.list_ops(build); lines = []
     for f in ('fq', 'fr', 'fp'):
@@ -20,6 +46,9 @@ def gen_lines(rng, build, reps, which='C10'):
             if not op.startswith(f + '.'): continue
             o = op[len(f) + 1:]
             if o.startswith('const.') or o.startswith('ark.const.'): continue
+            if (which == 'C10' and o in ('eq', 'ct_eq', 'sub', 'sub.inherent')) or (which == 'C11' and o in ('cmp', 'partial_cmp')):
+                for a, b2 in structured_pairs(rng, f, 3 * reps):
+                    lines.append('%s %x %x' % (op, a, b2))
             for rep in range(reps):
                 if which == 'C10':
                     if o.split('.')[0] in ARITH or o in ('inh.add', 'inh.sub', 'inh.mul', 'add.inherent', 'sub.inherent', 'mul.inherent', 'eq', 'ct_eq'):
@@ -82,6 +111,7 @@ def predicate_search(ctx, build, lines, hout, which):
         elif a is not None and len(a) == 1 and op in ('neg',): exp = '%x' % ((-a[0]) % m)
         elif a is not None and len(a) == 1 and op in ('square',): exp = '%x' % ((a[0] * a[0]) % m)
         elif a is not None and len(a) == 1 and op in ('inverse',): exp = 'NONE' if a[0] % m == 0 else 'SOME %x' % pow(a[0], -1, m)
+        elif a is not None and len(a) == 2 and op in ('eq', 'ct_eq'): exp = '1' if (a[0] - a[1]) % m == 0 else '0'
         elif op == 'select' and a is not None: exp = '%x' % (a[1] if a[2] == 1 else a[0])
         elif op in ('product.v', 'product.r', 'sum.v', 'sum.r'):
             xs = [int(x, 16) for x in t[1].split(';')] if t[1] != '-' else []
